@@ -481,8 +481,8 @@ class AtropBond(
     PERMUTATION_GROUP = (
             (0, 1, 2, 3, 4, 5),
             (1, 0, 2, 3, 5, 4),
-            (4, 5, 3, 2, 1, 0),
-            (5, 4, 3, 2, 0, 1),
+            (4, 5, 3, 2, 0, 1),
+            (5, 4, 3, 2, 1, 0),
     )
 
     def get_isomers(self) -> set[AtropBond]:
